@@ -82,6 +82,7 @@ class Truth:
         self.unheld_ticks_while_down = {}
         self.cadence_unknown = set()
         self.released_since_press_evt = set()
+        self.gap = {}              # consecutive scan ticks on which the key was NOT (held and strobed)
 
     def strobed_cols(self):
         cols = set()
@@ -103,7 +104,9 @@ class Truth:
                 if self.fsm.get(k) == "down":
                     self.strobed_since_evt[k] = self.strobed_since_evt.get(k, 0) + 1
                 self.unheld_ticks_while_down[k] = 0
+                self.gap[k] = 0
             else:
+                self.gap[k] = self.gap.get(k, 0) + 1
                 self.consec[k] = 0
                 if self.fsm.get(k) == "down":
                     self.unheld_ticks_while_down[k] = self.unheld_ticks_while_down.get(k, 0) + 1
@@ -214,11 +217,18 @@ def check_common(res, model, cfg, truth, op, obs_kil, events, fifo, prev_fifo, c
         if release:
             if st != "down":
                 return {"clause": "release_event_without_press", "model": model}, {"step": i, "key": k}
+            # a release event is due only after `release` CONSECUTIVE scan ticks without the key held on a strobed column
+            # (short strobe gaps must not add up)
+            if op[0] != "inject" and not cfg.get("redundant") and truth.gap.get(k, 0) < cfg["release"]:
+                return ({"clause": "release_event_premature", "model": model},
+                        {"step": i, "key": k, "consecutive_gap_ticks": truth.gap.get(k, 0), "release_threshold": cfg["release"]})
             truth.fsm[k] = "up"
             truth.unheld_ticks_while_down[k] = 0
         else:
             is_repeat = repeat if repeat is not None else (st == "down" and k not in truth.released_since_press_evt)
             truth.released_since_press_evt.discard(k)
+            if is_repeat and cfg.get("no_repeat") and op[0] != "inject":
+                return {"clause": "repeat_event_with_repeat_disabled", "model": model}, {"step": i, "key": k}
             if is_repeat:
                 if st != "down":
                     return {"clause": "repeat_event_without_press", "model": model}, {"step": i, "key": k}
@@ -548,6 +558,11 @@ def run_shard(spec) -> Result:
             ops = gen_history(r, keys, r.randrange(50, 120 if spec["tier"] == "quick" else 300), cfg, redundant=red,
                               norelease=(not red and r.random() < 0.45))
             jobs.append((dict(cfg, redundant=red), ops, keys))
+            if r.random() < 0.2:
+                # Rust only: key repeat switched off (set_repeat_enabled(false)); strobes come and go, keys stay down
+                cfg3 = dict(cfg, no_repeat=True)
+                ops3 = gen_history(r, keys, r.randrange(40, 110), cfg3, redundant=False, norelease=r.random() < 0.7)
+                jobs.append((dict(cfg3, redundant=False, rust_only=True), ops3, keys))
             if r.random() < 0.25:
                 cfg2 = dict(cfg, via_setter=True)
                 ops2 = gen_history(r, keys, r.randrange(30, 90), cfg2, redundant=False, norelease=r.random() < 0.45)
